@@ -120,10 +120,10 @@ static void hg_ins(uint32_t *ids, size_t *n, size_t pos, uint32_t id) {
 static void hg_del(uint32_t *ids, size_t *n, size_t pos) {
     memmove(ids + pos, ids + pos + 1, (*n - pos - 1) * sizeof(*ids)); (*n)--;
 }
-static void do_huge(size_t count, size_t os) {
+static void do_huge(size_t count, size_t os, int opt, long cap) {
     if (count < 8 || count > 0x7ffffff0u || os == 0) { printf("bad-op"); return; }
     /* half of the final capacity first: the fill also goes through one big realloc (double policy) */
-    qvector_t *v = qvector(count / 2 + 1, os, QVECTOR_RESIZE_DOUBLE);
+    qvector_t *v = qvector(cap < 0 ? count / 2 + 1 : (size_t) cap, os, opt);
     uint32_t *ids = malloc((count + 8) * sizeof(*ids));
     unsigned char *tmp = malloc(os), *el = malloc(os);
     size_t n = 0; uint32_t next = 0; int ok = 0;
@@ -366,10 +366,11 @@ int main(void) {
             long bad = check_kept();
             printf("end live=%ld bad=%ld\n", aw_live, bad); fflush(stdout); continue;
         }
-        if (!strcmp(w[0], "huge") && nw == 3) {
+        if (!strcmp(w[0], "huge") && (nw == 3 || nw == 5)) {   /* huge <count> <objsize> [<options> <capacity>] */
             if (V) qvector_free(V);
             V = NULL;
-            do_huge(strtoull(w[1], NULL, 10), strtoull(w[2], NULL, 10));
+            do_huge(strtoull(w[1], NULL, 10), strtoull(w[2], NULL, 10), nw == 5 ? atoi(w[3]) : QVECTOR_RESIZE_DOUBLE,
+                    nw == 5 ? atol(w[4]) : -1);
             printf("\n"); fflush(stdout); continue;
         }
         if (!strcmp(w[0], "new") && nw == 4) {
